@@ -1,7 +1,7 @@
 (** Per-run obligations: the boolean checkers of Proofs/DriverP.v evaluated on the program
     generated from src/main.cpp (proof by reflection; re-checked whenever main() changes). *)
 From Coq Require Import List ZArith Bool.
-From Inovesa Require Import Model.Driver Gen.Gen_MainLoop Proofs.DriverP.
+From Inovesa Require Import Model.Driver Model.Setup Gen.Gen_MainLoop Proofs.DriverP Proofs.DriverRFP Proofs.DriverFreeP Proofs.SetupP.
 Import ListNotations.
 
 Lemma main_cadence_checked : cadence_checker main_prog = true.
@@ -31,4 +31,23 @@ Proof. vm_compute. reflexivity. Qed.
 
 Definition main_split := match split_out main_body with Some x => x | None => (Done, Done, Done, Done) end.
 Lemma main_split_found : split_out (p_body main_prog) = Some main_split.
+Proof. vm_compute. reflexivity. Qed.
+
+(** C19: the RF map is applied exactly once per loop iteration, at top level, and nowhere else;
+    the final block (with a results file and a dynamic map) ends with the past list flushed *)
+Lemma main_rf_checked : rf_checker main_prog = true.
+Proof. vm_compute. reflexivity. Qed.
+
+(** the `delete` statements: nothing is freed before the final block, and in the final block no
+    call goes through an object after its `delete` *)
+Lemma main_free_checked : free_checker main_prog = true.
+Proof. vm_compute. reflexivity. Qed.
+
+(** the set-up skeleton: no condition reads the flag, the only driver calls are hook points and
+    the initial renormalisation, `Display::abort = true` only in an exception handler *)
+Lemma main_setup_checked : su_ok main_setup = true.
+Proof. vm_compute. reflexivity. Qed.
+
+(** every `return` of the set-up returns EXIT_SUCCESS or EXIT_FAILURE *)
+Lemma main_setup_returns : forallb (fun z => (z =? 0)%Z || (z =? 1)%Z) (returns main_setup) = true.
 Proof. vm_compute. reflexivity. Qed.
